@@ -106,6 +106,58 @@ def twin_fmt(fmt, rng):
     return "".join((next(it) if WIDTH[c] == 2 else c) if k == "code" else c for k, c in toks)
 
 
+# ---- analytical feature values: JSON form in a case -> Python value, protocol token, text the writer prints
+# int | ["D", n, d] (the float n/10^d) | ["S", text] | ["nan"] | ["inf", neg]
+def af_py(v):
+    if isinstance(v, int):
+        return v
+    if v[0] == "D":
+        return float(Fraction(v[1], 10 ** v[2]))
+    if v[0] == "S":
+        return v[1]
+    if v[0] == "nan":
+        return float("nan")
+    return float("-inf") if v[1] else float("inf")
+
+
+def af_tok(v):
+    if isinstance(v, int):
+        return str(v)
+    if v[0] == "D":
+        return "D%d:%d" % (v[1], v[2])
+    if v[0] == "S":
+        return "S" + hx(v[1])
+    if v[0] == "nan":
+        return "nan"
+    return "-inf" if v[1] else "inf"
+
+
+def af_canon(x):
+    """what the reader stored, in the JSON form of the model's reply"""
+    if isinstance(x, str):
+        return ["S", x]
+    x = float(x)
+    if x != x:
+        return ["nan"]
+    if x in (float("inf"), float("-inf")):
+        return ["inf", x < 0]
+    return x
+
+
+def af_model(tok):
+    if tok == "nan":
+        return ["nan"]
+    if tok in ("inf", "-inf"):
+        return ["inf", tok == "-inf"]
+    if tok.startswith("S"):
+        return ["S", unhx(tok[1:])]
+    return dec_float(tok)
+
+
+AF_NAMES = ["af0", "af1", "speed", "k&", "abs_curv", "hdop", "A", "n&", "time", "E", "ele", "&"]
+AF_STRS = ["abc", "x1", "N/A", "run", "\"q\"", "a b", "walk/bike", "é", "1;2", "", " pad ", "#c", "12a", "nan", "-Inf", "True"]
+
+
 def dec_float(tok):
     """'m/d' (mantissa, decimals) -> the float Python's float() gives for that decimal literal"""
     m, d = tok.split("/")
@@ -251,14 +303,30 @@ class P(Prop):
             rows.append(c + self.rand_stamp(rng))
         return rows, q
 
-    def csv_case(self, rng, ids, sep, h, srid, q="lat", pfmt=None, naf=0, n=None, hdrR=None):
+    def rand_af(self, rng, rich):
+        if not rich or rng.random() < 0.4:
+            return rng.choice([0, 1, -7, 42, rng.randrange(-10 ** 6, 10 ** 6)])
+        r = rng.random()
+        if r < 0.45:
+            d = rng.choice([1, 2, 3, 6])
+            n = rng.choice([rng.randrange(-10 ** 7, 10 ** 7), 5, -25, 10 ** d, 123456])
+            if n != 0 and abs(n) < 10 ** (d - 4):      # repr() stays positional
+                n = 10 ** d + n
+            return ["D", n, d]
+        if r < 0.85:
+            return ["S", rng.choice(AF_STRS)]
+        return rng.choice([["nan"], ["inf", False], ["inf", True]])
+
+    def csv_case(self, rng, ids, sep, h, srid, q="lat", pfmt=None, naf=0, n=None, hdrR=None, rich=False, read_all=False):
         rows, q = self.rand_rows(rng, srid, n, q)
         case = {"kind": "csv", "srid": srid, "ids": ids, "sep": sep, "h": h, "hdrR": h if hdrR is None else hdrR,
                 "pfmt": pfmt or DEFAULT_FMT, "q": q, "rows": rows}
         case["rfmt"] = case["pfmt"]
         if naf:
-            case["af_names"] = ["af%d" % i for i in range(naf)]
-            case["afs"] = [[rng.choice([0, 1, -7, 42, rng.randrange(-10 ** 6, 10 ** 6)]) for _ in range(naf)] for _ in rows]
+            case["af_names"] = ["af%d" % i for i in range(naf)] if not rich else rng.sample(AF_NAMES[:8] if rng.random() < 0.9 else AF_NAMES, naf)
+            case["afs"] = [[self.rand_af(rng, rich) for _ in range(naf)] for _ in rows]
+        if read_all:
+            case["read_all"] = True
         return case
 
     def rand_ident(self, rng):
@@ -502,7 +570,7 @@ class P(Prop):
                 out.append({"kind": "fix", "w": w, "d": d, "ns": [rng.randrange(-10 ** rng.randrange(1, 15), 10 ** rng.randrange(1, 15)) for _ in range(50)]})
         # --- timestamps
         for f in TIME_FMTS:
-            for _ in range(150 if not thorough else 1500):
+            for _ in range(100 if not thorough else 1500):
                 out.append({"kind": "time", "pfmt": f, "rfmt": f, "t": self.rand_stamp(rng)})
         for _ in range(30):
             out.append({"kind": "time", "pfmt": ISO_FMT, "rfmt": DEFAULT_FMT, "t": self.rand_stamp(rng)})
@@ -515,7 +583,7 @@ class P(Prop):
                             out.append(self.csv_case(rng, ids, sep, h, srid))
         L = self.layouts()
         # random CSV: formats, off-lattice values, features, blank separator with a blank-free time format
-        for _ in range(6000 if not thorough else 60000):
+        for _ in range(4000 if not thorough else 60000):
             ids = rng.choice(L)
             srid = rng.choice(SRIDS)
             sep = rng.choice([",", ";", ";", ",", " ", "\t", "|"])
@@ -540,6 +608,12 @@ class P(Prop):
                 for _ in range(6 if not thorough else 60):
                     out.append(self.csv_case(rng, rng.choice(L), rng.choice([",", ";", "|"]), h, rng.choice(SRIDS), hdrR=hdrR,
                                              naf=rng.choice([0, 1, 2]), n=rng.choice([1, 2, 3])))
+        # feature columns with int / float / str / nan values, read back with read_all (the names come from the header block)
+        for _ in range(1500 if not thorough else 15000):
+            h = rng.choice([1, 1, 1, 1, 2, 3, 0])
+            out.append(self.csv_case(rng, rng.choice(L), rng.choice([",", ";", ";", "|", "\t", " "]), h, rng.choice(SRIDS), q=rng.choice(["lat", "lat", None]),
+                                     pfmt=rng.choice([DEFAULT_FMT, ISO_FMT, ISO_FMT]), naf=rng.choice([0, 1, 2, 3]), n=rng.choice([1, 2, 3]),
+                                     hdrR=rng.choice([h, h, h, 0, 1, 2, 3, 4]), rich=rng.random() < 0.8, read_all=rng.random() < 0.85))
         for _ in range(40 if not thorough else 400):
             c = self.csv_case(rng, rng.choice(L), rng.choice([",", ";"]), 0, rng.choice(["ENU", "ECEF"]), n=3)
             c["rows"][rng.randrange(3)][rng.randrange(2)] = rng.choice([-999999000, -999999999, -999999500, -1000000000, -999998999])
@@ -561,7 +635,7 @@ class P(Prop):
             for h in (0, 1):
                 for _ in range(15 if not thorough else 150):
                     out.append(self.net_case(rng, sep, h))
-        for _ in range(2000 if not thorough else 20000):
+        for _ in range(1500 if not thorough else 20000):
             out.append(self.net_case(rng))
         for _ in range(40):
             c = self.net_case(rng, hdrR=rng.choice([0, 1, 2]))
@@ -571,7 +645,7 @@ class P(Prop):
             c["posdir"] = -1
             out.append(c)
         # --- WKT
-        for _ in range(2000 if not thorough else 20000):
+        for _ in range(1000 if not thorough else 20000):
             srid = rng.choice(["ENU", "GEO"])
             q = 3 if srid == "ENU" else 8
             n = rng.choice([1, 2, 3, 5, 8])
@@ -583,6 +657,11 @@ class P(Prop):
             out.append({"kind": "wkt", "srid": srid, "q": q, "pts": pts})
         return out
 
+    def search_cases(self, rng):
+        """failing-input search after a broken correspondence: two more draws of the quick generator (every case costs a
+        fork; the thorough generator would take minutes)"""
+        return self.cases(rng, "quick") + self.cases(rng, "quick")
+
     def describe(self, case):
         t = {"kind": case["kind"]}
         k = case["kind"]
@@ -591,6 +670,7 @@ class P(Prop):
             t["layout"] = "E%(E)dN%(N)dU%(U)dT%(T)d" % case["ids"]
             t["lattice"] = case["q"] is not None
             t["domain"] = self.csv_domain(case) is None
+            t["read_all"] = bool(case.get("read_all"))
         if k in ("net",):
             t["sep"] = case["sep"]; t["h"] = case["h"]; t["edges"] = len(case["edges"])
             t["exact_topology"] = self.net_exact(case)
@@ -672,13 +752,36 @@ class P(Prop):
                     if b != c:
                         self.leaks.append([name, what, b, c])
 
+    ISOLATED = ("session", "reread", "gpxdir")
+    _runner = None       # (owner pid, child pid, pipe to the child, pipe from the child)
+
     def impl(self, case):
-        """Every case that calls tracklib runs in a forked child of this process, which itself never executes library code
-        after the imports of setup(): whatever a call leaves behind in the process (class-level formats, memo tables, counters)
-        is seen by the later calls of the SAME case - that is what sessions are for - and never by another case. A failing
-        case therefore fails again when replayed alone in a fresh process."""
+        """Where the library code runs. This process never executes library code after the imports of setup().
+        * multi-operation cases (sessions, reread, gpxdir) each run in a child forked from this pristine process: whatever a
+          call leaves behind (class-level formats, memo tables, counters) is seen by the later calls of the SAME case - that is
+          what sessions are for - and by no other case;
+        * single-operation cases run one after the other in one long-lived child (a fork per case is too dear for 10^4 cases);
+          when the oracle rejects what that child answered, the case is run again in a fresh child and THAT answer counts.
+        A failing case therefore fails again when replayed alone in a fresh process."""
         if case["kind"] == "fix" or os.environ.get("C13_NOFORK"):
             return self.impl_here(case)
+        if case["kind"] in self.ISOLATED:
+            return self.fork_call(case)
+        out = self.runner_call(case)
+        try:
+            bad = self.spec(case, out)
+        except Exception:
+            bad = True
+        return self.fork_call(case) if bad else out
+
+    def guarded(self, case):
+        try:
+            return self.impl_here(case)
+        except BaseException as e:
+            from engine import err_kind
+            return {"err": err_kind(e), "detail": str(e)[:200]}
+
+    def fork_call(self, case):
         import pickle
         r, w = os.pipe()
         pid = os.fork()
@@ -686,13 +789,8 @@ class P(Prop):
             code = 0
             try:
                 os.close(r)
-                try:
-                    out = self.impl_here(case)
-                except BaseException as e:
-                    from engine import err_kind
-                    out = {"err": err_kind(e), "detail": str(e)[:200]}
                 with os.fdopen(w, "wb") as fh:
-                    fh.write(pickle.dumps(out))
+                    fh.write(pickle.dumps(self.guarded(case)))
             except BaseException:
                 code = 1
             finally:
@@ -704,6 +802,44 @@ class P(Prop):
         if not data:
             return {"err": "err:child", "detail": "the child process running the case died"}
         return pickle.loads(data)
+
+    def runner_call(self, case):
+        import pickle, struct, io, sys
+        R = P._runner
+        if R is None or R[0] != os.getpid():
+            c2p_r, c2p_w = os.pipe()
+            p2c_r, p2c_w = os.pipe()
+            pid = os.fork()
+            if pid == 0:
+                try:
+                    os.close(c2p_r); os.close(p2c_w)
+                    fin, fout = os.fdopen(p2c_r, "rb"), os.fdopen(c2p_w, "wb")
+                    while True:
+                        hdr = fin.read(4)
+                        if len(hdr) < 4:
+                            break
+                        c = pickle.loads(fin.read(struct.unpack(">I", hdr)[0]))
+                        sys.stdout, sys.stderr = io.StringIO(), io.StringIO()
+                        data = pickle.dumps(self.guarded(c))
+                        fout.write(struct.pack(">I", len(data)) + data)
+                        fout.flush()
+                except BaseException:
+                    pass
+                finally:
+                    os._exit(0)
+            os.close(c2p_w); os.close(p2c_r)
+            R = P._runner = (os.getpid(), pid, os.fdopen(p2c_w, "wb"), os.fdopen(c2p_r, "rb"))
+        try:
+            data = pickle.dumps(case)
+            R[2].write(struct.pack(">I", len(data)) + data)
+            R[2].flush()
+            hdr = R[3].read(4)
+            if len(hdr) < 4:
+                raise EOFError
+            return pickle.loads(R[3].read(struct.unpack(">I", hdr)[0]))
+        except Exception:
+            P._runner = None         # the runner died: answer from a fresh child, start another runner next time
+            return self.fork_call(case)
 
     def impl_here(self, case):
         T = self.ObsTime
@@ -843,7 +979,7 @@ class P(Prop):
         for j, nm in enumerate(names):
             trk.createAnalyticalFeature(nm)
             for i in range(len(case["rows"])):
-                trk.setObsAnalyticalFeature(nm, i, case["afs"][i][j])
+                trk.setObsAnalyticalFeature(nm, i, af_py(case["afs"][i][j]))
         path = self.tmpfile("csv")
         try:
             try:
@@ -862,11 +998,17 @@ class P(Prop):
             reads = []
             for _ in range(case.get("nread", 1)):        # the file written once is read by several readers
                 try:
-                    back = self.lib("TrackReader.readFromCsv", self.TR.readFromCsv, path, ids["E"], ids["N"], ids["U"], ids["T"], case["sep"], h=case["hdrR"], srid=case["srid"])
+                    back = self.lib("TrackReader.readFromCsv", self.TR.readFromCsv, path, ids["E"], ids["N"], ids["U"], ids["T"], case["sep"], h=case["hdrR"], srid=case["srid"],
+                                    read_all=bool(case.get("read_all")))
                     reads.append(self.obs_rows(back))
+                    if case.get("read_all") and len(reads) == 1:
+                        nms = back.getListAnalyticalFeatures()
+                        af = {"names": nms, "vals": [[af_canon(back.getObsAnalyticalFeature(nm, i)) for nm in nms] for i in range(back.size())]}
                 except Exception as e:
                     reads.append(self.ekind(e))
             out = {"text": text, "read": reads[0]}
+            if case.get("read_all") and not isinstance(reads[0], str):
+                out["af"] = af
             if len(reads) > 1:
                 out["rereads"] = reads[1:]
             return out
@@ -953,7 +1095,7 @@ class P(Prop):
     # ------------------------------------------------------------------ model
     def row_tok(self, r, q, d, afs=()):
         c = [scaled_tok(cval(v, q), d) for v in r[:3]]
-        return ",".join(str(v) for v in c + list(r[3:10]) + list(afs))
+        return ",".join([str(v) for v in c + list(r[3:10])] + [af_tok(v) for v in afs])
 
     def requests(self, case):
         k = case["kind"]
@@ -977,9 +1119,9 @@ class P(Prop):
             naf = len(case.get("af_names", []))
             rows = ";".join(self.row_tok(r, case["q"], d, case["afs"][i] if naf else ()) for i, r in enumerate(case["rows"]))
             names = ",".join(hx(n) for n in case.get("af_names", [])) or "_"
-            return ["C13.csv %d %d %d %d %d %d %d %d %s %s %d %s %s %s" % (geo, ids["E"], ids["N"], ids["U"], ids["T"], ord(case["sep"]), case["h"],
-                                                                          case["hdrR"], hx(case["pfmt"]), hx(case["rfmt"]), naf, rows,
-                                                                          hx(case["srid"]), names)]
+            return ["C13.csv %d %d %d %d %d %d %d %d %s %s %d %s %s %s %d" % (geo, ids["E"], ids["N"], ids["U"], ids["T"], ord(case["sep"]), case["h"],
+                                                                             case["hdrR"], hx(case["pfmt"]), hx(case["rfmt"]), naf, rows,
+                                                                             hx(case["srid"]), names, bool(case.get("read_all")))]
         if k == "gpx":
             rows = ";".join(self.row_tok(r, case["q"], 8) for r in case["rows"])
             return ["C13.gpx %d %s %s %s" % (case["srid"] == "GEO", hx(case["rfmt"]), hx(str(case["tid"])), rows)]
@@ -1044,7 +1186,12 @@ class P(Prop):
         else:
             body = r[3:]
             if k == "csv":
+                body, _, ab = body.partition(" A:")
                 read = [] if body == "_" else [self.rrow(t) for t in body.split(";")]
+                if ab:
+                    nb, _, vb = ab.partition("|")
+                    af = {"names": [] if nb == "_" else [unhx(t) for t in nb.split(",")],
+                          "vals": [[] for _ in read] if vb == "_" else [([] if t == "_" else [af_model(x) for x in t.split(",")]) for t in vb.split(";")]}
             elif k == "gpx":
                 read = [([] if t == "_" else [self.rrow(x) for x in t.split(";")]) for t in body.split("|")] if body != "_" else []
             elif k == "wkt":
@@ -1062,6 +1209,8 @@ class P(Prop):
                     nodes.append([unhx(f[0]), self.v3(f[1])])
                 read = {"edges": edges, "nodes": nodes}
         out = {"text": text, "read": read}
+        if k == "csv" and case.get("read_all") and not isinstance(read, str):
+            out["af"] = af
         return out
 
     def compare(self, case, impl_out, model_out):
@@ -1103,6 +1252,8 @@ class P(Prop):
             return "GPX metadata block is not the expected one"
         if impl_out["read"] != model_out["read"]:
             return "read back: impl=%s model=%s" % (str(impl_out["read"])[:300], str(model_out["read"])[:300])
+        if impl_out.get("af") != model_out.get("af"):
+            return "read_all features: impl=%s model=%s" % (str(impl_out.get("af"))[:300], str(model_out.get("af"))[:300])
         for j, rr in enumerate(impl_out.get("rereads", [])):
             if rr != model_out["read"]:
                 return "read number %d of the same file: impl=%s model=%s" % (j + 2, str(rr)[:300], str(model_out["read"])[:300])
@@ -1131,6 +1282,15 @@ class P(Prop):
                     return "coordinate collides with the no-data sentinel"
         if case["sep"] in "0123456789.-+\n\r\"#" or case["sep"] in "".join(case.get("af_names", [])):
             return "separator occurs in numbers"
+        for row in case.get("afs", []):
+            for v in row:
+                t = str(af_py(v))
+                if t != t.strip() or t == "" or case["sep"] in t or "\n" in t or t.startswith("#"):
+                    return "a feature value is not one field of the line"
+        if case.get("read_all") and case["h"] == 0:
+            return "read_all takes the column names from the header block: a file written without it has none (the reader raises UnboundLocalError)"
+        if case.get("read_all") and any(nm in ("x", "y", "z", "t", "timestamp", "idx") for nm in case.get("af_names", [])):
+            return "a feature column has a name the track refuses"
         return None
 
     @staticmethod
